@@ -984,6 +984,13 @@ func (x *Exec) resolveTargets(env *SpecEnv, a spec.Expr) (ts []Target, all bool)
 			if id.Name == "post" {
 				return nil, false // handled separately
 			}
+			if id.Name == "deref" && len(a.Args) == 1 {
+				b := x.eval(env, a.Args[0])
+				if pt, ok := b.GT.Underlying().(*types.Pointer); ok && !isStruct(pt.Elem()) {
+					h, _ := E.boxHeap(pt.Elem())
+					return []Target{{Heap: h, Key: b.T}}, false
+				}
+			}
 			if id.Name == "mapOf" && len(a.Args) == 1 {
 				b := x.eval(env, a.Args[0])
 				d, v, _, _ := E.mapHeaps(b.GT)
